@@ -22,6 +22,7 @@ import (
 type functionsFile struct {
 	Sigs  map[string]string   `json:"signatures"`
 	Names map[string][]string `json:"functions"`
+	Loops map[string]int      `json:"loops"`
 }
 
 // recordedName: current top-level function -> the name its contract knows it by
@@ -31,6 +32,9 @@ var recordedName = map[*ssa.Function]string{}
 func nameOf(fn *ssa.Function) string {
 	if len(recordedName) == 0 {
 		return fn.String()
+	}
+	if n, ok := recordedName[fn]; ok && fn.Parent() != nil {
+		return n // a closure under contract that moved, with the code around it, into another function
 	}
 	top := fn
 	for top.Parent() != nil {
@@ -53,7 +57,17 @@ func sigKey(fn *ssa.Function) string {
 }
 
 func (w *World) writeFunctions(verif string) error {
-	rec := functionsFile{Sigs: map[string]string{}, Names: map[string][]string{}}
+	rec := functionsFile{Sigs: map[string]string{}, Names: map[string][]string{}, Loops: map[string]int{}}
+	for n, c := range w.contracts {
+		if c.Assumed || c.Trusted {
+			continue
+		}
+		if fn := w.funcOf(n); fn != nil && len(fn.Blocks) > 0 {
+			if k := len(loopHeaders(fn)); k > 0 {
+				rec.Loops[n] = k
+			}
+		}
+	}
 	pkgs := map[string]bool{}
 	for n, c := range w.contracts {
 		if c.Assumed || c.Trusted {
@@ -63,10 +77,13 @@ func (w *World) writeFunctions(verif string) error {
 			n = n[:i]
 		}
 		fn := w.funcs[n]
-		if fn == nil || fn.Parent() != nil || fn.Pkg == nil {
+		if fn == nil || fn.Pkg == nil {
 			continue
 		}
 		rec.Sigs[n] = sigKey(fn)
+		if fn.Parent() != nil {
+			continue
+		}
 		pkgs[fn.Pkg.Pkg.Path()] = true
 	}
 	for n, fn := range w.funcs {
@@ -93,6 +110,7 @@ func (w *World) recoverRenamedFunctions(verif string) {
 	if json.Unmarshal(b, &rec) != nil {
 		return
 	}
+	w.recLoops = rec.Loops
 	var keys []string
 	for n, c := range w.contracts {
 		if c.Assumed || c.Trusted || strings.Contains(n, "$") || strings.Contains(n, "@") {
@@ -127,6 +145,45 @@ func (w *World) recoverRenamedFunctions(verif string) {
 		taken[fn] = true
 		recordedName[fn] = n
 		w.renamedFuncs = append(w.renamedFuncs, relName(n, c.Pkg)+" -> "+relName(fn.String(), c.Pkg))
+	}
+	// closures under contract whose enclosing function no longer holds them: the one closure of the package with
+	// the recorded signature that has no contract and sits in a function that is new
+	var ckeys []string
+	for n, c := range w.contracts {
+		if c.Assumed || c.Trusted || !strings.Contains(n, "$") || strings.Contains(n, "@") {
+			continue
+		}
+		if w.funcOf(n) == nil && rec.Sigs[n] != "" {
+			ckeys = append(ckeys, n)
+		}
+	}
+	sort.Strings(ckeys)
+	for _, n := range ckeys {
+		c := w.contracts[n]
+		known := map[string]bool{}
+		for _, k := range rec.Names[c.Pkg] {
+			known[k] = true
+		}
+		var cands []*ssa.Function
+		for _, fn := range w.allFuncs {
+			if fn.Parent() == nil || fn.Pkg == nil || fn.Pkg.Pkg.Path() != c.Pkg || len(fn.Blocks) == 0 || taken[fn] {
+				continue
+			}
+			top := fn
+			for top.Parent() != nil {
+				top = top.Parent()
+			}
+			if known[top.String()] || w.contracts[nameOf(fn)] != nil || sigKey(fn) != rec.Sigs[n] {
+				continue
+			}
+			cands = append(cands, fn)
+		}
+		if len(cands) != 1 {
+			continue
+		}
+		taken[cands[0]] = true
+		recordedName[cands[0]] = n
+		w.renamedFuncs = append(w.renamedFuncs, relName(n, c.Pkg)+" -> "+relName(cands[0].String(), c.Pkg))
 	}
 	if len(recordedName) == 0 {
 		return
